@@ -94,6 +94,10 @@ theorem binding_overrides_declaration (p : List String) (a : Nat) (v : Val) (hp 
     walk (setAnn [] p a) p = some (.ann a) ∧ walk (setValue (setAnn [] p a) p v) p = some (.val v) :=
   declared_then_bound p a v hp
 
+/-- a binding to CEL `null` is a binding like any other: it still beats the declaration -/
+example : walk (setValue (setAnn [] ["a", "b"] 0) ["a", "b"] .null) ["a", "b"] = some (.val .null) :=
+  (binding_overrides_declaration ["a", "b"] 0 .null (by simp)).2
+
 /-- the same at the level of one Referent: `Referent.value` is the value when one is set, whatever the
 annotation (and the nested container when there is one: the source of D19) -/
 theorem referent_value (a : Option Nat) (v : Val) :
